@@ -190,7 +190,7 @@ def render(doc, fmt) -> bytes:
             return web.write_mhtml(doc)
         if fmt == "epub":
             depth = ("OEBPS", "", "EPUB/package")[len(doc.get("blocks") or []) % 3]
-            return web.write_epub({"chapters": [doc], "props": doc.get("props")}, opf_dir=depth)
+            return web.write_epub({"chapters": [doc], "props": doc.get("props")}, opf_dir=depth, vary_ext=True)
         if fmt == "rtf":
             return misc.write_rtf(doc)
     if k == "deck":
@@ -212,7 +212,7 @@ def render(doc, fmt) -> bytes:
             # the package file sits at the root, one or two directories deep (chosen by the document's shape)
             depth = ("", "OEBPS", "EPUB/package")[sum(len(pg) for pg in doc["pages"] if pg != "gap") % 3]
             return web.write_epub({"chapters": ["gap" if pg == "gap" else {"blocks": [["p", [["r", i] for i in ln]] for ln in pg]}
-                                                for pg in doc["pages"]], "props": doc.get("props")}, opf_dir=depth)
+                                                for pg in doc["pages"]], "props": doc.get("props")}, opf_dir=depth, vary_ext=True)
         return misc.write_plain([ln for pg in doc["pages"] for ln in pg], fmt)
     if k == "formula":
         return odf.write_odf_formula(doc["ids"], doc.get("props"))
